@@ -421,6 +421,37 @@ Str normalizeAddrs(const Str& in) { return canonLeakOrder(normalizeAddrs0(in)); 
 // and no state of one run can leak into the next.
 static char* leakPluginStorage() { static char* p = (char*)::malloc(sizeof(MemoryLeakWarningPlugin)); return p; }
 
+// The library's own static entry point CommandLineTestRunner::RunAllTests(argc, argv) - the one a test program's main() calls - on a tiny
+// registry with one plugin of the user's, a failing run first and a passing run after it: whatever the result, the registry must be left with
+// exactly the user's plugin, and the value returned is zero exactly for the passing run.
+static int g_miniMode = 0, g_miniRuns = 0;
+static void miniBody() { g_miniRuns++; if (g_miniMode == 1) FAIL_TEST_LOCATION("mini failure", "mini.cpp", 7); CHECK_TRUE_LOCATION(true, "CHECK_TRUE", "true", NULLPTR, "mini.cpp", 8); }
+class CountingPlugin : public TestPlugin { public: int pre, post; CountingPlugin() : TestPlugin("UsersPlugin"), pre(0), post(0) {} void preTestAction(UtestShell&, TestResult&) CPPUTEST_OVERRIDE { pre++; } void postTestAction(UtestShell&, TestResult&) CPPUTEST_OVERRIDE { post++; } };
+static void staticWrapperEpilogue(const Desc& d, Obs& o) {
+    fired("static_run_all_tests_entry_point");
+    MemoryLeakWarningPlugin::turnOnDefaultNotThreadSafeNewDeleteOverloads();
+    TestRegistry* saved = TestRegistry::getCurrentRegistry();
+    {
+        TestRegistry mini; mini.setCurrentRegistry(&mini);
+        CountingPlugin users; mini.installPlugin(&users);
+        ExecFunctionTestShell shell; ExecFunctionWithoutParameters fn(miniBody); shell.testFunction_ = &fn; mini.addTest(&shell);
+        const char* av[] = { "prog" };
+        int order = (int)d.pi("static_wrapper");      // 1: failing run first, 2: passing run first
+        for (int round = 0; round < 2; round++) {
+            g_miniMode = (round == 0) == (order == 1) ? 1 : 0; g_miniRuns = 0; int pre0 = users.pre;
+            int ret = CommandLineTestRunner::RunAllTests(1, av);
+            MemoryLeakWarningPlugin::turnOnDefaultNotThreadSafeNewDeleteOverloads();
+            if ((ret == 0) != (g_miniMode == 0)) o.wrapperProblems += sfmt("round %d (%s test): RunAllTests returned %d; ", round, g_miniMode ? "failing" : "passing", ret);
+            if (g_miniRuns != 1 || users.pre != pre0 + 1 || users.post != users.pre) o.wrapperProblems += sfmt("round %d: the test ran %d times, the user's plugin saw %d pre and %d post actions in total; ", round, g_miniRuns, users.pre, users.post);
+            if (mini.countPlugins() != 1 || mini.getFirstPlugin() != &users || mini.getPluginByName(DEF_PLUGIN_MEM_LEAK) != 0) { o.wrapperProblems += sfmt("round %d: %d plugins installed after the runner returned (the user installed 1); ", round, mini.countPlugins()); break; }
+        }
+        shell.testFunction_ = 0;
+        mini.resetPlugins();
+    }
+    saved->setCurrentRegistry(0);
+    MemoryLeakWarningPlugin::turnOnDefaultNotThreadSafeNewDeleteOverloads();
+}
+
 void executeRun(const Desc& d, Obs& o) {
     installBasicSeams();
     static bool first = true;
@@ -570,6 +601,7 @@ void executeRun(const Desc& d, Obs& o) {
     SimIO& io = simIO();
     o.console = io.console; o.writesAfterClose = io.writesAfterClose; o.badHandle = io.badHandle;
     for (size_t i = 0; i < io.files.size(); i++) o.files.push_back(*io.files[i]);
+    if (d.pi("static_wrapper")) staticWrapperEpilogue(d, o);
 }
 
 }  // namespace rs
